@@ -8,8 +8,10 @@ use serde_json::{json, Value};
 fn rep(class: &str, salt: usize) -> &'static str {
     let pick = |v: &'static [&'static str]| v[salt % v.len()];
     match class {
-        "plain" => pick(&["a", "Z", " ", "/", "0", "{", "}", ":", ","]),
+        "plain" => pick(&["a", "Z", " ", "/", "0", "{", "}", ":", ",", ".", "_", "-", "$", "%"]),
         "quote" => "\"",
+        "dot" => ".",
+        "us" => "_",
         "bslash" => "\\",
         "lf" => "\n",
         "cr" => "\r",
